@@ -1783,6 +1783,7 @@ class DocEngine:
             g = given if given is not None else self.sut.src["path"]
             art["given"] = g
             art["path"] = self._resolved(g, pk)
+        art["hist_flags"] = sorted(self.flags & {"merged_styles_xml_automatic"})  # facts that travel with the saved file
         self.artifacts.append(art)
         vs += self._oracle_saved(op, art, feats)
         return vs
@@ -1888,7 +1889,8 @@ class DocEngine:
                 return [Violation("C03", "reopen-raises", "reopen", self._feats() + ["how:" + how], type(exc).__name__, f"{type(exc).__name__}: {exc}")]
             raise HarnessError(f"cannot reopen artefact: {exc}")
         self.n_reopen += 1
-        self.flags = set()
+        # facts about the other document stay true; facts saved with the artefact come back with it
+        self.flags = (self.flags & {"other_has_styles_xml_automatic_style", "other_has_unsaved_styles"}) | set(art.get("hist_flags", []))
         self._after_open(op)
         if self.prop == "C13":
             self.flags.add("reopened")
